@@ -42,6 +42,8 @@ TSlotData = TypeVar("TSlotData", bound=Mapping, contravariant=True)
 
 DEFAULT_SLOT_KEY = "default"
 FILL_GEN_CONTEXT_KEY = "_DJANGO_COMPONENTS_GEN_FILL"
+# Marks the Context layer that `SlotNode.render()` adds on top of the context only while a fill is rendered
+SLOT_FILL_LAYER_KEY = "_DJC_SLOT_FILL_LAYER"
 SLOT_DATA_KWARG = "data"
 SLOT_NAME_KWARG = "name"
 SLOT_DEFAULT_KWARG = "default"
@@ -553,6 +555,9 @@ class SlotNode(BaseNode):
             and _COMPONENT_CONTEXT_KEY in component_ctx.outer_context
         ):
             extra_context[_COMPONENT_CONTEXT_KEY] = component_ctx.outer_context[_COMPONENT_CONTEXT_KEY]
+            # This layer only re-points the fill content to the parent component. It is not the layer
+            # of the component whose slot is being rendered (see `_nodelist_to_slot_render_func()`).
+            extra_context[SLOT_FILL_LAYER_KEY] = True
             # This ensures that `component_vars.is_filled`is accessible in the fill
             extra_context["component_vars"] = component_ctx.outer_context["component_vars"]
 
@@ -1073,7 +1078,12 @@ def _nodelist_to_slot_render_func(
         # HOWEVER, the layer with `_COMPONENT_CONTEXT_KEY` also contains user-defined data from `get_context_data()`.
         # Data from `get_context_data()` should take precedence over `extra_context`. So we have to insert
         # the forloop variables BEFORE that.
-        index_of_last_component_layer = get_last_index(ctx.dicts, lambda d: _COMPONENT_CONTEXT_KEY in d)
+        # NOTE: Skip the temporary layers which `SlotNode.render()` puts on top of the context to re-point
+        # the fill content to the parent component. Otherwise `extra_context` would end up ABOVE
+        # the data from `get_context_data()` of the component that renders the slot.
+        index_of_last_component_layer = get_last_index(
+            ctx.dicts, lambda d: _COMPONENT_CONTEXT_KEY in d and SLOT_FILL_LAYER_KEY not in d
+        )
         if index_of_last_component_layer is None:
             index_of_last_component_layer = 0
 
